@@ -470,31 +470,45 @@ def check_float_text(ctx, interp, policy, text):
 def task_callsites():
     """no-raise of the whitelist asserts: every literal passed to keyword/delimiter/operator anywhere in the package is listed."""
     obs = []
+    seen_names = set()
     lists = dict((m, whitelist(m)) for m in ('keyword', 'delimiter', 'operator'))
     fns = []
     for path in source.all_package_files():
         fi = source.file_info(path)
         rel = path[len(source.SRC) + 1:]
+
+        def where(n):
+            # the enclosing function (names stay stable when unrelated lines are added to the file; the line goes into the detail)
+            best = '<module>'
+            for q, d in fi.by_qual.items():
+                if isinstance(d, (pyast.FunctionDef, pyast.AsyncFunctionDef)) and d.lineno <= n.lineno <= d.end_lineno and (best == '<module>' or len(q) > len(best)):
+                    best = q
+            return '%s:%s' % (rel[:-3].replace('python_minifier/', ''), best)
         for n in pyast.walk(fi.tree):
             if isinstance(n, pyast.Call) and isinstance(n.func, pyast.Attribute) and n.func.attr in lists and n.args:
                 recv = pyast.unparse(n.func.value)
                 if 'printer' not in recv:
                     continue
                 a = n.args[0]
-                name = 'C08/noraise/%s:%d/%s-argument-is-listed' % (rel, n.lineno, n.func.attr)
                 if isinstance(a, pyast.Constant) and isinstance(a.value, str):
                     ok = a.value in lists[n.func.attr]
-                    obs.append(_ob(name, ok, 'literal %r' % a.value))
+                    name = 'C08/noraise/%s/%s(%r)-is-a-listed-token' % (where(n), n.func.attr, a.value)
+                    if name not in seen_names:
+                        seen_names.add(name)
+                        obs.append(_ob(name, ok, 'literal %r at line %d' % (a.value, n.lineno)))
                 else:
                     src = pyast.unparse(a)
                     if src in ('repr(node.value)', 'self._delimiter', 'd', 'kw', 'o'):
                         continue     # covered by the L3 dispatch contract / Delimiter constructor scan / the method's own parameter
-                    obs.append(_ob(name, False, 'non-literal argument %s' % src))
+                    obs.append(_ob('C08/noraise/%s/%s-argument-is-a-literal' % (where(n), n.func.attr), False, 'non-literal argument %s at line %d' % (src, n.lineno)))
             if isinstance(n, pyast.Call) and isinstance(n.func, pyast.Name) and n.func.id == 'Delimiter':
                 for k in n.keywords:
                     if k.arg == 'delimiter':
                         ok = isinstance(k.value, pyast.Constant) and k.value.value in lists['delimiter']
-                        obs.append(_ob('C08/noraise/%s:%d/Delimiter-separator-is-listed' % (rel, n.lineno), ok, pyast.unparse(k.value)))
+                        name = 'C08/noraise/%s/Delimiter-separator(%s)-is-listed' % (where(n), pyast.unparse(k.value))
+                        if name not in seen_names:
+                            seen_names.add(name)
+                            obs.append(_ob(name, ok, '%s at line %d' % (pyast.unparse(k.value), n.lineno)))
     fi, node = source.find_def('%s:Delimiter.__init__' % TP)
     dflt = node.args.defaults[0].value if node.args.defaults else None
     obs.append(_ob('C08/noraise/Delimiter-default-separator-is-listed', dflt in lists['delimiter'], repr(dflt)))
